@@ -329,6 +329,32 @@ func (g *gen) expr(t string, depth int) *Expr {
 	switch t {
 	case "n":
 		if g.cfg.MathHeavy && depth > 0 && r.Intn(2) == 0 {
+			if r.Intn(4) == 0 {
+				// the conversions, also of literals and of each other's results, as left and right operands
+				// (number of a number is that number - every time the statement is evaluated)
+				conv := func() *Expr {
+					switch r.Intn(5) {
+					case 0:
+						return eCall("number", g.numLit())
+					case 1:
+						return eCall("number", eCall("number", g.numLit()))
+					case 2:
+						return eCall("number", eBool(r.Intn(2) == 0))
+					case 3:
+						return eCall("number", g.varOf("n"))
+					}
+					return eCall("number", g.expr("n", depth-1))
+				}
+				switch r.Intn(4) {
+				case 0:
+					return conv()
+				case 1:
+					return eBin([]string{"add", "sub", "mul", "div", "mod"}[r.Intn(5)], conv(), []*Expr{eNum(1, 1), eNum(2, 1), eNum(1, 2)}[r.Intn(3)])
+				case 2:
+					return eBin([]string{"add", "sub", "mul"}[r.Intn(3)], g.numLit(), conv())
+				}
+				return eBin("add", conv(), conv())
+			}
 			fn := []string{"floor", "ceil", "round", "inc", "dec", "integer", "decimal"}[r.Intn(7)]
 			return eCall(fn, g.expr("n", depth-1))
 		}
